@@ -59,6 +59,7 @@ struct Profile {
     bool thorough{false};
     bool judge_history{true};  // linearizability, value sanity, range-read consistency
     bool judge_quiescent{true}; // coherence of access paths + structure at quiescence
+    bool allow_inline{false};   // some cases store inline (uintptr_t) values
     bool force_templates{false}; // enumeration stages: always build the scenario from the race templates
     bool cursor_skip_reads{true}; // keys passed over by a cursor count as 'absent' pseudo-reads (C10's no-skip clause)
 };
@@ -68,6 +69,7 @@ inline Profile make_profile(const std::string& prop, const std::string& tier) {
     p.prop = prop;
     p.thorough = tier == "thorough";
     if (prop == "C01") {
+        p.allow_inline = true;
         p.max_threads = 4;
         p.max_ops = 4;
     } else if (prop == "C04") {
@@ -81,6 +83,7 @@ inline Profile make_profile(const std::string& prop, const std::string& tier) {
         p.scanner_thread = true;
         p.inserters_only_new_keys = true;
     } else if (prop == "C08") {
+        p.allow_inline = true;
         p.w_get = 0;
         p.w_put = 4;
         p.w_remove = 4;
@@ -88,6 +91,7 @@ inline Profile make_profile(const std::string& prop, const std::string& tier) {
         p.max_ops = 4;
     } else if (prop == "C09") {
         p.judge_history = false; // C09 judges completion and locks only; reads are judged by C01/C04/C10
+        p.allow_inline = true;
         p.w_scan = 2;
         p.w_cursor = 2;
         p.max_threads = 4;
@@ -113,6 +117,7 @@ inline Profile make_profile(const std::string& prop, const std::string& tier) {
 }
 
 inline bool g_varied_lengths = false; // C15: overwrites with values of very different lengths
+inline bool g_inline_values = false;  // this case stores inline (uintptr_t) values: the word is the value id
 inline std::string value_of(std::uint32_t id) {
     if (g_varied_lengths) {
         static const std::size_t lens[] = {4, 5, 8, 9, 64, 100, 1000, 4096, 7, 33};
@@ -123,6 +128,12 @@ inline std::string value_of(std::uint32_t id) {
 
 // decode a value observed through a pointer: returns id, or 0xffffffff for null, 0xfffffffe for torn / unknown bytes
 inline std::uint32_t identify(const void* p, std::size_t len, bool have_len, std::uint32_t max_id) {
+    if (g_inline_values) {
+        auto w = reinterpret_cast<std::uintptr_t>(p);
+        if (w == 0) { return 0xffffffffU; }
+        if (w > max_id || (have_len && len != sizeof(std::uintptr_t))) { return 0xfffffffeU; }
+        return static_cast<std::uint32_t>(w);
+    }
     if (p == nullptr) { return 0xffffffffU; }
     std::uint32_t id = 0;
     std::memcpy(&id, p, 4);
@@ -151,6 +162,7 @@ struct Scenario {
     std::vector<std::string> init_keys;
     std::map<std::string, std::uint32_t> init_val;
     bool emptied{false};
+    bool inline_values{false};
     std::vector<std::string> pre_removed; // inserted and removed again during setup (sparse shapes: borders with one or two keys)
     std::vector<std::string> hot;
     std::vector<std::vector<Op>> threads;
@@ -250,6 +262,10 @@ inline Scenario decode(Chooser& c, const Profile& pf, vf::Stats& st, bool record
     }
     unsigned depth = static_cast<unsigned>(c.weighted({5, 3, 1}));
     for (unsigned d = 0; d < depth; ++d) { s.prefix += vf::slice_pool()[c.range(0, 5)]; }
+    if (pf.allow_inline && c.chance(1, 5)) {
+        s.inline_values = true; // pointer-sized values stored in the slot itself: remove does not clear the slot
+        s.family += "+inline_values";
+    }
     if (pf.small_sublayers && depth > 0 && !c.chance(1, 10)) {
         // open finding C10/cursor_layer_root_replaced_skip: keep next layers too small for their root to split
         if (n > 8) {
@@ -498,6 +514,45 @@ inline Scenario decode(Chooser& c, const Profile& pf, vf::Stats& st, bool record
         }
         nt = static_cast<unsigned>(s.threads.size());
     }
+    // ---- C06 template: a scan that starts in the gap behind the last key of a border (that border is recorded without contributing a
+    // tuple) and continues through the next borders, against inserts of the gap key and of a new key in the following border
+    if (pf.inserters_only_new_keys && fam == 4 && !sparse && n >= 17 && width == 1 && (pf.force_templates || c.chance(1, 3))) {
+        templated = true;
+        unsigned nb = (n - 1) / 8; // ascending setup inserts leave borders of 8 keys (the last one holds the rest)
+        unsigned b = c.range(0, nb > 1 ? nb - 2 : 0);
+        std::string G = ctr_key(s.prefix, 16 * b + 16, width);                         // sorts behind the last key of border b
+        std::string X = ctr_key(s.prefix, 16 * b + 18 + 2 * c.range(0, 5), width);     // absent key inside border b+1
+        s.threads.assign(2, {});
+        Op sc0;
+        sc0.kind = pf.w_cursor > pf.w_scan ? OpK::Cursor : OpK::Scan;
+        sc0.l = G;
+        sc0.le = c.flip() ? scan_endpoint::INCLUSIVE : scan_endpoint::EXCLUSIVE;
+        if (c.chance(1, 2)) {
+            sc0.re = scan_endpoint::INF;
+        } else {
+            sc0.r = ctr_key(s.prefix, 16 * b + 33 + 2 * c.range(0, 7), width);
+            sc0.re = scan_endpoint::INCLUSIVE;
+        }
+        sc0.nvv = true;
+        s.threads[0].push_back(sc0);
+        auto ins = [&](const std::string& key) {
+            Op o;
+            o.kind = c.flip() ? OpK::Put : OpK::PutUnique;
+            o.key = key;
+            o.wid = id++;
+            return o;
+        };
+        std::string G2 = sc0.le == scan_endpoint::INCLUSIVE ? G : G + "a"; // a key of the interval that lands in border b
+        if (c.flip()) {
+            s.threads[1].push_back(ins(G2));
+            s.threads[1].push_back(ins(X));
+        } else {
+            s.threads[1].push_back(ins(X));
+            s.threads[1].push_back(ins(G2));
+        }
+        s.family += "+gap_template";
+        nt = 2;
+    }
     for (unsigned t = churn ? nt : (templated ? 2 : 0); t < nt; ++t) {
         unsigned nops = 1 + c.range(0, pf.max_ops - 1);
         bool reader = pf.scanner_thread && t == 0;
@@ -564,6 +619,17 @@ inline Scenario decode(Chooser& c, const Profile& pf, vf::Stats& st, bool record
     return s;
 }
 
+inline status do_put(Token tok, const std::string& key, std::uint32_t id, bool unique) {
+    if (g_inline_values) {
+        std::uintptr_t w = id;
+        return put<std::uintptr_t>(tok, "s", key, &w, sizeof(w), static_cast<std::uintptr_t**>(nullptr),
+                                   static_cast<value_align_type>(alignof(std::uintptr_t)), unique, static_cast<inserted_node_info*>(nullptr));
+    }
+    std::string v = value_of(id);
+    return put<char>(tok, "s", key, v.data(), v.size(), static_cast<char**>(nullptr), static_cast<value_align_type>(1), unique,
+                     static_cast<inserted_node_info*>(nullptr));
+}
+
 // ---- execution --------------------------------------------------------------------------------------
 struct Exec {
     const Scenario& sc;
@@ -589,15 +655,13 @@ struct Exec {
             switch (o.kind) {
                 case OpK::Put:
                 case OpK::PutUnique: {
-                    std::string v = value_of(o.wid);
                     HOp h;
                     h.thread = static_cast<int>(t);
                     h.kind = o.kind == OpK::Put ? HKind::Put : HKind::PutUnique;
                     h.key = o.key;
                     h.wid = o.wid;
                     h.inv = S.now();
-                    status rc = put<char>(tok, "s", o.key, v.data(), v.size(), static_cast<char**>(nullptr), static_cast<value_align_type>(1),
-                                          o.kind == OpK::PutUnique, static_cast<inserted_node_info*>(nullptr));
+                    status rc = do_put(tok, o.key, o.wid, o.kind == OpK::PutUnique);
                     h.resp = S.now();
                     if (rc == status::OK) {
                         h.res = HRes::Ok;
@@ -745,8 +809,7 @@ inline vf::CaseResult run_scenario(const Profile& pf, const Scenario& sc, const 
             Token tok{};
             enter(tok);
             for (auto& k : sc.init_keys) {
-                std::string v = value_of(sc.init_val.at(k));
-                if (put<char>(tok, "s", k, v.data(), v.size()) != status::OK) { throw Fail{"harness", "setup put failed"}; }
+                if (do_put(tok, k, sc.init_val.at(k), false) != status::OK) { throw Fail{"harness", "setup put failed"}; }
             }
             if (sc.emptied) {
                 for (auto& k : sc.init_keys) { remove(tok, "s", k); }
@@ -754,10 +817,9 @@ inline vf::CaseResult run_scenario(const Profile& pf, const Scenario& sc, const 
             if (!sc.pre_removed.empty()) {
                 // build the dense tree in key order first, then thin it out
                 std::vector<std::string> all = sc.pre_removed;
-                std::string v = value_of(1);
                 std::sort(all.begin(), all.end());
                 for (auto& k : all) {
-                    if (put<char>(tok, "s", k, v.data(), v.size()) != status::OK) { throw Fail{"harness", "setup put failed"}; }
+                    if (do_put(tok, k, 1, false) != status::OK) { throw Fail{"harness", "setup put failed"}; }
                 }
                 for (auto& k : sc.pre_removed) { remove(tok, "s", k); }
             }
@@ -1131,7 +1193,10 @@ inline vf::CaseResult run_case(const vf::RunnerArgs& args, const std::vector<std
     Chooser c(bytes);
     g_varied_lengths = pf.prop == "C15";
     Scenario sc = decode(c, pf, st, record);
+    g_inline_values = sc.inline_values;
+    if (args.verbose) { std::fprintf(stderr, "SCENARIO\n%s", sc.text().c_str()); }
     auto& S = sched::Scheduler::get();
+    S.fatal_on_step_limit = pf.prop == "C09"; // non-termination under a fair schedule is what C09 is about
     if (args.extra != "enum1" && args.extra != "enum2") {
         S.use_script = false;
         return run_scenario(pf, sc, bytes, record, st);
